@@ -91,9 +91,15 @@ DoRemove(k, i) == /\ i \in 0..(Len_(k) - 1)
                      IN c' = [c EXCEPT ![k] = [items |-> s2, best |-> IF x = @.best THEN Best(s2) ELSE @.best]]
                   /\ Same /\ op' = <<"remove", k, i>>
 DoClear(k) == c' = [c EXCEPT ![k] = Empty] /\ Same /\ op' = <<"clear", k>>
-\* sort: the statement only says "orders by value"; any value-sorted permutation is allowed
-DoSort(k) == /\ \E t \in SortedPerms(c[k].items) : c' = [c EXCEPT ![k].items = t]
+\* sort: list.sort is stable, and the generated behaviours follow it (StableSort) so that replays stay in step with
+\* CPython; the statement only says "orders by value", so AnnealResultsTrace accepts ANY value-sorted permutation
+\* (SortedPerms) from the implementation.
+StableSort(s) == LET idx == SortSeq([i \in 1..Len(s) |-> i], LAMBDA a, b : s[a].v < s[b].v \/ (s[a].v = s[b].v /\ a < b))
+                 IN [i \in 1..Len(s) |-> s[idx[i]]]
+DoSort(k) == /\ c' = [c EXCEPT ![k].items = StableSort(@)]
              /\ Same /\ op' = <<"sort", k>>
+DoSortAny(k, t) == /\ t \in SortedPerms(c[k].items) /\ c' = [c EXCEPT ![k].items = t]
+                   /\ Same /\ op' = <<"sort", k>>
 
 \* --- extend / += (aslist: the operand is handed over as a plain list) ---
 ExtendBest(k, o, aslist) ==
